@@ -110,7 +110,7 @@ def main(run):
         mn, mx = params[i % len(params)]
         traces.append(suffix_group(rng, mn, mx, 8 * 1024 if quick else 32 * 1024))
         run.case(('suffix', i, mn, mx))
-    for i in range(10 if quick else 400):
+    for i in range(10 if quick else 120):
         mn, mx = params[i % 2]
         traces.append(edit_group(rng, mn, mx, n))
         run.case(('edit', i, mn, mx, traces[-1]['kind']))
